@@ -76,5 +76,23 @@ def run(ctx):
     from lib.props import _mach
     _mach.run_modes(ctx, ["history", "conc"], ["c08"])
     ctx.rule += " ; plus session-machine histories and schedules with the handler-level monitor (grants only in proxy/forward-auth/refresh handlers, mode rules, cooldown, idempotent manual refresh, metadata endpoint)"
+    # "refreshed automatically ONLY on proxied (or forward-auth) requests": every other owned endpoint, hit with a session that is due
+    # for refresh / has an expired token (rate limiter on and off, both stores, standalone and SSO server), performs no grant and leaves
+    # the stored session as it is.
+    import json
+    pre2 = ctx.path("norefresh")
+    vf.run_driver(["norefresh", "-out", pre2, "-seed", str(ctx.seed), "-tier", ctx.tier])
+    n = 0
+    for line in open(pre2 + ".obs"):
+        d = json.loads(line)
+        n += 1
+        if d["refresh_grants"]:
+            ctx.violation("c08-grant-in-wrong-handler", "a request to an owned endpoint other than proxy / forward-auth / refresh performed a refresh grant", d)
+        elif d["stored_session_changed"] and d["stored_session_present_after"]:   # (login?prompt=... deletes the session by design; that is not a refresh)
+            ctx.violation("c08-session-moved-by-non-refreshing-endpoint", "a request to an owned endpoint other than proxy / forward-auth / refresh changed the stored session", d)
+    ctx.evals += n
+    ctx.nontrivial += n
+    ctx.extra["non_refreshing_endpoint_requests"] = n
+    ctx.rule += " ; plus %d requests to the other owned endpoints with a refresh-due / expired-token session (no grant, stored session unchanged)" % n
     ctx.assumptions += ["no int64 overflow of time arithmetic (durations far below 2^63 ns)",
                         "Go zero time.Time is modelled as an absent timeout"]
